@@ -436,6 +436,8 @@ func declaredInputsRule(c *Ctx, r *Report, rule string, pick func(ai accessorInp
 		}
 		if equalStrs(ai.atoms, sp.Atoms) {
 			r.ok(rule, name, c.fnPos(ai.fn), "reads exactly the declared inputs "+strings.Join(sp.Atoms, ", "))
+		} else if by, ok := decidedByTable[name]; ok && len(subsetStrs(sp.Atoms, ai.atoms)) == 0 {
+			r.ok(rule, name, c.fnPos(ai.fn), fmt.Sprintf("reads %v beyond the declared inputs %v; the accessor is decided as a complete decision table by %s, which varies those inputs too", subsetStrs(ai.atoms, sp.Atoms), sp.Atoms, by))
 		} else {
 			r.bad(rule, name, c.fnPos(ai.fn), fmt.Sprintf("reads %v but its declared defining inputs are %v (extra: %v, missing: %v): the attribute is not a function of its defining inputs alone, or ignores one of them",
 				ai.atoms, sp.Atoms, subsetStrs(ai.atoms, sp.Atoms), subsetStrs(sp.Atoms, ai.atoms)))
